@@ -45,11 +45,19 @@ PROP_READ = {
 NEUTRAL = {"caldesc": "desc", "abdesc": "desc", "calcolor": "color", "abcolor": "color"}
 
 
+def slots_for(principal):
+    """Slot paths below a principal (the default is /user/)."""
+    base = "/" + principal.strip("/")
+    return ({c: base + p[len("/user"):] for c, p in SLOTS.items()},
+            {c: base + p[len("/user"):] for c, p in HOMES.items()})
+
+
 class DavSession:
     def __init__(self, frontend="wsgi", prefix="/", backend="tree", index_threshold=None,
-                 audit_git=True, max_sync_tokens=4):
-        self.cfg = {"frontend": frontend, "prefix": prefix, "backend": backend}
-        self.world = World(frontend=frontend, prefix=prefix, index_threshold=index_threshold)
+                 audit_git=True, max_sync_tokens=4, principal="/user/"):
+        self.cfg = {"frontend": frontend, "prefix": prefix, "backend": backend, "principal": principal}
+        self.slots, self.homes = slots_for(principal)
+        self.world = World(frontend=frontend, prefix=prefix, index_threshold=index_threshold, principal=principal)
         self.backend = backend
         self.audit_git = audit_git
         self.max_sync_tokens = max_sync_tokens
@@ -79,7 +87,7 @@ class DavSession:
     # -- setup for backends the server cannot create itself ----------------
     def _precreate(self):
         kinds = {"cal1": "calendar", "cal2": "calendar", "ab1": "addressbook"}
-        for c, path in SLOTS.items():
+        for c, path in self.slots.items():
             p = self.world.fspath(path)
             if self.backend in ("bare", "barecfg"):
                 make_bare_collection(p, kinds[c], use_git_config=(self.backend == "barecfg"))
@@ -184,7 +192,7 @@ class DavSession:
             hdrs.append(("If-Match", imh))
         if inmh is not None:
             hdrs.append(("If-None-Match", inmh))
-        path = SLOTS[c] + "/" + n
+        path = self.slots[c] + "/" + n
         resp = self._request("PUT", path, hdrs, data, fault)
         ev = {"op": "Put", "c": c, "n": n, "b": b, "im": imr, "inm": inmr, "re": bool(re),
               "fault": fault if self._fault_fired else 0}
@@ -194,7 +202,7 @@ class DavSession:
     def post(self, c, data, ct):
         kind = gamma.kind_for_ct(ct)
         b = self.body_id(data, kind)
-        path = SLOTS[c] + "/"
+        path = self.slots[c] + "/"
         resp = self.world.request("POST", path, [("Content-Type", ct)], data)
         n = ""
         loc = resp.header("Location")
@@ -212,14 +220,14 @@ class DavSession:
         imh, imr = self.cond(im, c, n)
         if imh is not None:
             hdrs.append(("If-Match", imh))
-        path = SLOTS[c] + "/" + n
+        path = self.slots[c] + "/" + n
         resp = self._request("DELETE", path, hdrs, None, fault)
         ev = {"op": "Delete", "c": c, "n": n, "im": imr, "fault": fault if self._fault_fired else 0}
         return self._record(ev, resp, {"m": "DELETE", "path": path, "headers": hdrs})
 
     def mk(self, c, kind, how="auto", props=()):
         """Create collection slot c.  how: mkcalendar | mkcol | xmkcol (extended MKCOL)."""
-        path = SLOTS[c] + "/"
+        path = self.slots[c] + "/"
         if how == "auto":
             how = {"calendar": "mkcalendar", "addressbook": "xmkcol", "other": "mkcol"}[kind]
         if how == "mkcalendar" and props:
@@ -255,7 +263,7 @@ class DavSession:
         return self._record(ev, resp, {"m": how, "path": path, "props": list(props)})
 
     def delete_coll(self, c):
-        path = SLOTS[c] + "/"
+        path = self.slots[c] + "/"
         resp = self.world.request("DELETE", path, [])
         ev = {"op": "DeleteColl", "c": c}
         return self._record(ev, resp, {"m": "DELETE", "path": path})
@@ -266,7 +274,7 @@ class DavSession:
 
     def propupdate(self, c, ops):
         """One PROPPATCH with the instructions ops = [(property, value or None = remove)] in this order."""
-        path = SLOTS[c] + "/"
+        path = self.slots[c] + "/"
         body = gamma.proppatch_body(ops)
         resp = self.world.request("PROPPATCH", path, [("Content-Type", "text/xml")], body)
         # per-property status decides whether the server reported success
@@ -293,7 +301,7 @@ class DavSession:
 
     def lock(self, c, on=True):
         """Environment action: a stale .git/index.lock appears / disappears (tree stores)."""
-        p = os.path.join(self.world.fspath(SLOTS[c]), ".git", "index.lock")
+        p = os.path.join(self.world.fspath(self.slots[c]), ".git", "index.lock")
         if on:
             if os.path.isdir(os.path.dirname(p)):
                 open(p, "wb").close()
@@ -310,7 +318,7 @@ class DavSession:
         inmh, inmr = self.cond(inm, c, n)
         if inmh is not None:
             hdrs.append(("If-None-Match", inmh))
-        path = SLOTS[c] + "/" + n
+        path = self.slots[c] + "/" + n
         resp = self.world.request("HEAD" if head else "GET", path, hdrs)
         ev = {"op": "Get", "c": c, "n": n, "inm": inmr, "head": head,
               "bodylen": len(resp.body)}
@@ -320,7 +328,7 @@ class DavSession:
         """items: list of (class, name) with class in
         live|missing|dup|enc|abs|othercoll|outside|coll|malformed ; recorded with the answers."""
         w = self.world
-        base = SLOTS[c] + "/"
+        base = self.slots[c] + "/"
         kind = self._kind_guess(c)
         hrefs = []
         desc = []
@@ -335,7 +343,7 @@ class DavSession:
             elif cls.startswith("othercoll"):
                 oc = cls.split(":", 1)[1] if ":" in cls else [s for s in SLOTS if s != c][0]
                 cls = "othercoll"
-                h = urllib.parse.quote(w.url(SLOTS[oc] + "/" + n))
+                h = urllib.parse.quote(w.url(self.slots[oc] + "/" + n))
             elif cls == "outside":
                 h = "/outside-the-namespace/" + urllib.parse.quote(n)
             elif cls == "coll":
@@ -400,7 +408,7 @@ class DavSession:
             if a is not None:
                 colls[c] = a
         homes = {}
-        for h in sorted(set(HOMES.values())):
+        for h in sorted(set(self.homes.values())):
             homes[h.rsplit("/", 1)[-1]] = self._audit_home(h)
         # forget current etags of vanished resources
         return {"colls": colls, "homes": homes}
@@ -419,16 +427,16 @@ class DavSession:
                     continue
                 name = h.rstrip("/").rsplit("/", 1)[-1]
                 # directory name -> slot name
-                out.append(next((c for c, sp in SLOTS.items() if sp == path + "/" + name), name))
+                out.append(next((c for c, sp in self.slots.items() if sp == path + "/" + name), name))
         return sorted(out)
 
     def _audit_coll(self, c, full=True):
         import copy
         w = self.world
-        path = SLOTS[c] + "/"
+        path = self.slots[c] + "/"
         r = w.request("PROPFIND", path, [("Depth", "1"), ("Content-Type", "text/xml")],
                       gamma.PROPFIND_ALL)
-        p = w.fspath(SLOTS[c])
+        p = w.fspath(self.slots[c])
         key = (r.status, r.body, self._repo_fingerprint(p) if os.path.isdir(p) else None,
                c in self.locked)
         if not full and self._light.get(c, (None, None))[0] == key:
@@ -439,7 +447,7 @@ class DavSession:
 
     def _audit_coll_full(self, c, r):
         w = self.world
-        path = SLOTS[c] + "/"
+        path = self.slots[c] + "/"
         if alpha.response_class(r)[0] == "notfound":
             for n in list(self.names[c]):
                 self.last_etag.pop((c, n), None)
@@ -625,7 +633,7 @@ class DavSession:
     def _typed(self, c):
         """Does the collection carry an explicit type (versioned .xandikos or git config)?
         An untyped collection has its type guessed from its contents by the server."""
-        p = self.world.fspath(SLOTS[c])
+        p = self.world.fspath(self.slots[c])
         bare = not os.path.isdir(os.path.join(p, ".git"))
         try:
             txt = open(os.path.join(p, "config") if bare else os.path.join(p, ".git", "config"), "rb").read()
@@ -657,7 +665,7 @@ class DavSession:
         return tuple(fp)
 
     def _audit_git(self, c, members):
-        p = self.world.fspath(SLOTS[c])
+        p = self.world.fspath(self.slots[c])
         if os.path.isdir(p):
             fp = (self._repo_fingerprint(p), c in self.locked)
             cached = self._git_cache.get(c)
